@@ -26,14 +26,15 @@ type CaseSpec struct {
 	Constraint int  `json:"constraint"` // 0 both, 1 OnlyMarshal, 2 OnlyUnmarshal
 	Before     int  `json:"before"`     // 0 nil, 1 ok, 2 returns error, 3 panics
 	After      int  `json:"after"`      // same
-	Pred       int  `json:"pred"`       // 0 nil, 1 AnyError, 2 Error(exact), 3 ErrorHasPrefix, 4 ErrorHasSuffix, 5 ErrorMatch(valid), 6 ErrorMatch(invalid pattern), 7 ErrorMatch(first line of the error text followed by .*$: met only by one-line texts)
+	Pred       int  `json:"pred"`       // 0 nil, 1 AnyError, 2 Error(exact), 3 ErrorHasPrefix, 4 ErrorHasSuffix, 5 ErrorMatch(valid), 6 ErrorMatch(invalid pattern), 7 ErrorMatch(first line of the error text followed by .*$: met only by one-line texts), 8 a caller's own predicate that says no without reporting anything, 9 a caller's own predicate that always says yes, 10 a caller's own predicate that reports and says no
 	PredHit    bool `json:"pred_hit"`   // predicate text chosen to match (true) or to miss (false) the scripted error text
-	MOut       int  `json:"m_out"`      // marshal: 0 right data, 1 wrong data, 2 nil data
+	MOut       int  `json:"m_out"`      // marshal: 0 right data, 1 wrong data, 2 nil data, 3 the right data with a line feed added at (or, with NLData, removed from) its end
 	MErr       int  `json:"m_err"`      // marshal: 0 no error, 1 error, 2 panic, 3 an error value that is a nil pointer of an error type, 4 error with a two-line text
 	UStore     int  `json:"u_store"`    // unmarshal: 0 stores the expected value, 1 stores a different value, 2 stores nothing
 	UErr       int  `json:"u_err"`      // unmarshal: 0 no error, 1 error, 2 panic (after storing), 3 nil-pointer error value, 4 error with a two-line text
 	NilValue   bool `json:"nil_value"`  // pointer type only: the case's Value is a nil pointer
 	EmptyData  bool `json:"empty_data"` // OnlyMarshal cases only: the expected Data is empty (the marshaler returns nil or an empty slice)
+	NLData     bool `json:"nl_data"`    // the case's Data ends with a line feed (MOut 3 then returns it without one)
 }
 
 // Hook kinds: 0 nil, 1 ok, 2 returns error, 3 panics, 4 ok but overwrites the Data field of the case it is handed,
@@ -82,7 +83,7 @@ func doMarshal(tag int) ([]byte, error) {
 }
 
 func doUnmarshal(data []byte, set func(tag int, payload string)) error {
-	tag, err := strconv.Atoi(strings.TrimPrefix(string(data), "u:"))
+	tag, err := strconv.Atoi(strings.TrimSpace(strings.TrimPrefix(string(data), "u:")))
 	if err != nil {
 		return fmt.Errorf("bad scripted input %q", data)
 	}
@@ -346,6 +347,15 @@ func predicate(cs CaseSpec, idx int, e errInfo) (fn test.AssertErrorFunc, text s
 			text = "^" + regexp.QuoteMeta(known)
 		}
 		return test.ErrorMatch(text), text
+	case 8:
+		return func(test.TestingT, error, string) bool { return false }, "caller's predicate: no, silently"
+	case 9:
+		return func(test.TestingT, error, string) bool { return true }, "caller's predicate: yes"
+	case 10:
+		return func(t test.TestingT, err error, failInfo string) bool {
+			t.Errorf("caller's predicate is not happy with %v: %s", err, failInfo)
+			return false
+		}, "caller's predicate: no, reported"
 	case 7:
 		line := known
 		if i := strings.IndexAny(line, "\r\n"); i >= 0 {
@@ -365,6 +375,12 @@ func predicate(cs CaseSpec, idx int, e errInfo) (fn test.AssertErrorFunc, text s
 // evalPred is the model's own reading of a predicate (kind, text) on an error described by e. For panic errors only a
 // prefix of the text is known (a stack follows); the texts generated here are decidable from that prefix.
 func evalPred(kind int, text string, e errInfo) bool {
+	switch kind {
+	case 8, 10:
+		return false
+	case 9:
+		return true
+	}
 	if kind == 0 || !e.isErr {
 		return false
 	}
@@ -531,6 +547,9 @@ func runList[T any](spec ListSpec, mkValue func(tag int, payload string, isNil b
 		tag := base + i
 		pred, _ := predicate(cs, i, errOf(cs, marshal, tag))
 		data := "u:" + strconv.Itoa(tag)
+		if cs.NLData {
+			data += "\n"
+		}
 		if cs.EmptyData {
 			data = ""
 		}
@@ -540,6 +559,12 @@ func runList[T any](spec ListSpec, mkValue func(tag int, payload string, isNil b
 			ms.data = []byte(data)
 		case 1:
 			ms.data = []byte(data + "-wrong")
+		case 3:
+			if strings.HasSuffix(data, "\n") {
+				ms.data = []byte(strings.TrimSuffix(data, "\n"))
+			} else {
+				ms.data = []byte(data + "\n")
+			}
 		}
 		switch cs.MErr {
 		case 3:
@@ -928,14 +953,15 @@ func genCase(rt *rapid.T) CaseSpec {
 		Constraint: rapid.SampledFrom([]int{0, 0, 1, 2}).Draw(rt, "constraint"),
 		Before:     hookG.Draw(rt, "before"),
 		After:      hookG.Draw(rt, "after"),
-		Pred:       rapid.SampledFrom([]int{0, 0, 0, 1, 2, 3, 4, 5, 5, 6, 7, 7}).Draw(rt, "pred"),
+		Pred:       rapid.SampledFrom([]int{0, 0, 0, 0, 1, 2, 3, 4, 5, 5, 6, 7, 7, 8, 9, 10}).Draw(rt, "pred"),
 		PredHit:    rapid.Bool().Draw(rt, "predHit"),
-		MOut:       rapid.SampledFrom([]int{0, 0, 1, 2}).Draw(rt, "mOut"),
+		MOut:       rapid.SampledFrom([]int{0, 0, 1, 2, 3}).Draw(rt, "mOut"),
 		MErr:       rapid.SampledFrom([]int{0, 0, 1, 2, 3, 4}).Draw(rt, "mErr"),
 		UStore:     rapid.SampledFrom([]int{0, 0, 1, 2}).Draw(rt, "uStore"),
 		UErr:       rapid.SampledFrom([]int{0, 0, 1, 2, 3, 4}).Draw(rt, "uErr"),
 		NilValue:   rapid.IntRange(0, 9).Draw(rt, "nilValue") == 0,
 		EmptyData:  rapid.IntRange(0, 7).Draw(rt, "emptyData") == 0,
+		NLData:     rapid.IntRange(0, 7).Draw(rt, "nlData") == 0,
 	}
 	// bias towards coherent cases (an expected error together with an error and no result; a plain success)
 	switch rapid.IntRange(0, 3).Draw(rt, "coherent") {
@@ -1021,6 +1047,24 @@ func TestCheck(t *testing.T) {
 				}
 			}
 		}
+		for con := 0; con < 3; con++ { // the caller's own predicates against every outcome; data that differs in a final line feed only
+			for _, pred := range []int{8, 9, 10} {
+				for out := 0; out < 4; out++ {
+					for _, er := range []int{0, 1, 2, 3, 4} {
+						specs = append(specs, CaseSpec{Constraint: con, Pred: pred, MOut: out, MErr: er, UStore: out % 3, UErr: er})
+					}
+				}
+			}
+			for _, nl := range []bool{false, true} {
+				for _, pred := range []int{0, 1, 5} {
+					for _, er := range []int{0, 1} {
+						for _, out := range []int{0, 3} {
+							specs = append(specs, CaseSpec{Constraint: con, NLData: nl, Pred: pred, PredHit: true, MOut: out, MErr: er, UErr: er, UStore: 2 * er})
+						}
+					}
+				}
+			}
+		}
 		for con := 0; con < 3; con++ { // two-line error texts and panics against every predicate kind, incl. the first-line pattern
 			for pred := 0; pred <= 7; pred++ {
 				for hit := 0; hit < 2; hit++ {
@@ -1092,6 +1136,7 @@ func TestCheck(t *testing.T) {
 			{After: 4}, {Before: 4, Constraint: 1}, {Constraint: 1, EmptyData: true, MOut: 2},
 			{MErr: 3, UErr: 3}, {MErr: 3, UErr: 3, MOut: 2, UStore: 2, Pred: 2, PredHit: true},
 			{Pred: 7, MErr: 1, MOut: 2, UErr: 1, UStore: 2}, {Pred: 7, MErr: 4, MOut: 2, UErr: 4, UStore: 2}, {Pred: 7, MErr: 2, MOut: 2, UErr: 2, UStore: 2}, {Pred: 3, PredHit: true, MErr: 4, MOut: 2, UErr: 4, UStore: 2},
+			{Pred: 8, MOut: 2, UStore: 2}, {Pred: 8, MErr: 1, MOut: 2, UErr: 1, UStore: 2}, {Pred: 9, MOut: 2, UStore: 2}, {Pred: 10, MErr: 1, MOut: 2, UErr: 1, UStore: 2}, {MOut: 3}, {NLData: true}, {NLData: true, MOut: 3},
 			{Before: 5}, {Before: 6, After: 2}, {Before: 6, After: 3, MErr: 2, UErr: 2, Pred: 3, PredHit: true, UStore: 2}, // hooks that rewrite the case they are handed; nil result for empty data
 		}
 		np := int64(len(pal))
